@@ -73,11 +73,15 @@ def _hybrids():
     class PH3(xo.HybridClass):
         _xofields = {"r": xo.Ref(PH1), "k": xo.Int64}
 
-    for c in (PH1, PH2, PH3):
+    class PH4(xo.HybridClass):
+        # nested parts of dynamic size declared AFTER other fields of dynamic size (reached through offset slots), two levels
+        _xofields = {"w": xo.Int32[:], "s": xo.String, "inner": PH1, "deep": PH2, "k": xo.Int64}
+
+    for c in (PH1, PH2, PH3, PH4):
         c.__module__ = __name__
         c.__qualname__ = c.__name__
         setattr(_mod, c.__name__, c)
-    return dict(PH1=PH1, PH2=PH2, PH3=PH3)
+    return dict(PH1=PH1, PH2=PH2, PH3=PH3, PH4=PH4)
 
 
 HYBRIDS = _hybrids()
